@@ -470,8 +470,9 @@ theorem sop_refines (ne np : Nat) (d : Det) (a : SOp) (hdec : (decode ne np a).i
     have hfeed : feed ne np (a :: l) ([] ++ rest) sc = feed ne np l rest sc := by
       simp only [feed, hdd, Option.bind_some, hm, List.nil_append]
     have hout : dd.out (feed ne np l rest sc) = false := by simp [Dec.out, hm]
+    have hhas : dd.has (feed ne np l rest sc) := by simp [Dec.has, hm]
     simp only [List.headD_nil] at hrun
-    rw [hfeed, hout, hpr, hrun]
+    rw [hfeed, if_pos hhas, hout, hpr, hrun]
     simp only [Option.map_some, Dec.pop, hm]
   | some r =>
     have hmt : (toCOp a).measures = true := by rw [← hms, hm]; rfl
@@ -482,7 +483,8 @@ theorem sop_refines (ne np : Nat) (d : Det) (a : SOp) (hdec : (decode ne np a).i
       simp only [feed, hdd, Option.bind_some, hm, List.singleton_append, List.tail_cons, List.headD_cons]
     have hout : dd.out (pushOut (feed ne np l rest sc) r o) = o := by
       simp [Dec.out, hm, pushOut]
-    rw [hfeed, hout, hpr]
+    have hhas : dd.has (pushOut (feed ne np l rest sc) r o) := by simp [Dec.has, hm, pushOut]
+    rw [hfeed, if_pos hhas, hout, hpr]
     simp only [List.headD_cons] at hrun
     rw [hrun]
     simp only [Option.map_some, Dec.pop, hm, popReg_pushOut]
